@@ -46,10 +46,10 @@ func listIsResult(fn *ssa.Function, app *ssa.Call) bool {
 }
 
 func purgeGate(w *World) gateSpec {
-	purge := purgeHelpers(w)
+	judge := expiryJudges(w)
 	return gateSpec{Name: "expire", FailWhen: "true", Idx: 0, IsGate: func(c *ssa.CallCommon) bool {
 		f := c.StaticCallee()
-		return f != nil && purge[f] && f.Signature.Results().Len() == 2
+		return f != nil && judge[f] && f.Signature.Results().Len() == 2
 	}}
 }
 
@@ -503,4 +503,52 @@ func directlyFrom(v ssa.Value, pred func(ssa.Value) bool, d int) bool {
 		}
 	}
 	return false
+}
+
+// expiryJudges: the functions whose (bool, error) result says whether a fact has expired.
+func expiryJudges(w *World) map[*ssa.Function]bool {
+	purge := purgeHelpers(w)
+	ce := w.Func("core", "checkExpiration")
+	// a judge: checkExpiration itself (a reader under the read lock only skips what has expired and leaves the removal
+	// to a purge under the write lock), a helper that judges and removes, or a function every return of which hands
+	// back, result for result, what one call of a judge returned (`expired`, which also notes the id)
+	judge := map[*ssa.Function]bool{ce: true}
+	for f := range purge {
+		judge[f] = true
+	}
+	for changed := true; changed; {
+		changed = false
+		for _, fn := range w.Funcs {
+			if judge[fn] || isTestFile(w, fn) || !w.IsRulio(fn) || fn.Signature.Results().Len() != 2 {
+				continue
+			}
+			rets, all := 0, true
+			allInstrs(fn, func(in ssa.Instruction) {
+				ret, ok := in.(*ssa.Return)
+				if !ok {
+					return
+				}
+				rets++
+				var call *ssa.Call
+				for i, rv := range ret.Results {
+					ex, ok := resolveSpill(rv).(*ssa.Extract)
+					if !ok || ex.Index != i {
+						all = false
+						return
+					}
+					c, ok := ex.Tuple.(*ssa.Call)
+					if !ok || (call != nil && c != call) || c.Common().StaticCallee() == nil || !judge[c.Common().StaticCallee()] {
+						all = false
+						return
+					}
+					call = c
+				}
+			})
+			if rets > 0 && all {
+				judge[fn] = true
+				changed = true
+			}
+		}
+	}
+	return judge
 }
